@@ -181,3 +181,24 @@ func VerifApplyResult(v interface{}) ([]*balloon.Snapshot, error) {
 	s, _ := r.val.([]*balloon.Snapshot)
 	return s, nil
 }
+
+// ---- durable-write boundaries (crash-point enumeration, C07)
+
+// VerifBoundaryHook is called at entry and exit of every durable write of the raft log store (the
+// calls are inserted at check time by port/seams.py) and, through the harness's store wrapper, of the
+// FSM store. A harness child process counts the boundaries and SIGKILLs itself at the chosen one.
+var VerifBoundaryHook func(where string)
+
+func verifBoundary(where string) {
+	if h := VerifBoundaryHook; h != nil {
+		h(where)
+	}
+}
+
+// VerifForceRaftSnapshot asks raft for a snapshot now (raft calls Snapshot()+Persist and compacts its log).
+func (n *RaftNode) VerifForceRaftSnapshot() error {
+	return n.raft.Snapshot().Error()
+}
+
+func (n *RaftNode) VerifLeaveLeadership() error { return n.leaveLeadership() }
+func (n *RaftNode) VerifRaftStats() map[string]string { return n.raft.Stats() }
